@@ -2,6 +2,9 @@
 # Re-runs every stored seeded defect against the check of its property: apply to /repo, ./check, undo.
 cd "$(dirname "$0")/.."
 git -C /repo status --short | grep -q . && { echo "/repo not clean"; exit 2; }
+# evidence files must describe the unchanged tree: keep them aside while seeded trees are checked
+rm -rf /var/tmp/evidence.keep; cp -r evidence /var/tmp/evidence.keep
+trap 'rm -rf evidence; mv /var/tmp/evidence.keep evidence' EXIT
 for d in seeded/*/; do
   id=$(basename $d); p=${id%%-*}
   if ! git -C /repo apply --check $PWD/$d/patch.diff 2>/dev/null; then echo "$id: patch no longer applies to HEAD"; continue; fi
